@@ -443,14 +443,19 @@ func (r *runner) settled() bool {
 // quiesce waits until the pipe is settled and its partition has not grown for a number of consecutive polls (long cap).
 func (r *runner) quiesce() {
 	r.srv.FlushWait()
-	deadline := time.Now().Add(12 * time.Second)
+	// the cap is about progress, not about wall time: as long as the partition keeps growing the wait goes on (a loaded
+	// machine can make a worker take many seconds); 12 s without any growth, or 90 s in all, end it
+	start, lastChange := time.Now(), time.Now()
 	last, stable := -1, 0
 	need := 6
 	if !r.pipeLive {
 		need = 15
 	}
-	for time.Now().Before(deadline) {
+	for time.Since(lastChange) < 12*time.Second && time.Since(start) < 90*time.Second {
 		n := r.destCount()
+		if n != last {
+			lastChange = time.Now()
+		}
 		if n == last && r.settled() {
 			stable++
 			if stable >= need {
@@ -689,7 +694,7 @@ func execHistory(h *history, sec *vh.Section, section string, quiet bool) (rp *e
 	if r.destTags != "" {
 		dest, err = readAll(r.srv, "select from "+r.destTags)
 		if err != nil {
-			res.Note("%s: reading the pipe partition failed: %v", section, err)
+			fail("pipe-partition-unreadable", "reading the pipe's partition fails", err.Error(), "readable", "", false)
 			return rp
 		}
 	}
@@ -1490,9 +1495,9 @@ func waitDest(srv *lrsrv.Srv, destTags string, n int, d time.Duration) int {
 // changed for a number of consecutive polls (long cap: a loaded machine delays the notificator and the workers).
 func settle(srv *lrsrv.Srv, name, _ string, destTags string) bool {
 	srv.FlushWait()
-	deadline := time.Now().Add(10 * time.Second)
+	start, lastChange := time.Now(), time.Now()
 	last, stable := "", 0
-	for time.Now().Before(deadline) {
+	for time.Since(lastChange) < 10*time.Second && time.Since(start) < 60*time.Second {
 		ds, _ := srv.Pipes.VerifC10Descs(name)
 		dl := make([]string, len(ds))
 		for i, d := range ds {
@@ -1507,6 +1512,9 @@ func settle(srv *lrsrv.Srv, name, _ string, destTags string) bool {
 			}
 		} else {
 			stable = 0
+		}
+		if cur != last {
+			lastChange = time.Now()
 		}
 		last = cur
 		time.Sleep(20 * time.Millisecond)
@@ -1867,6 +1875,140 @@ func sectionParked(rng *vh.Rng, corpus []parkedCase) {
 }
 
 // ---------------------------------------------------------------------------------------------
+// record sizes: the pipe makes every record longer (provenance fields); the journal can serve records up to MaxRecordSize
+
+type recsizeCase struct {
+	Max     int    `json:"max"`      // JournalControllerConfig.MaxRecordSize of the server
+	SrcSize int    `json:"src_size"` // record size of the big source event (model.LogEvent.WritableSize)
+	Fields  string `json:"fields,omitempty"`
+}
+
+func varintLen(n int) int {
+	l := 1
+	for n >= 128 {
+		n >>= 7
+		l++
+	}
+	return l
+}
+
+// recordSize is the reference arithmetic of model.LogEvent.WritableSize: header, timestamp, length-prefixed message,
+// and — only when there are fields — the length-prefixed binary field list
+func recordSize(msgLen, fieldsLen int) int {
+	n := 1 + 8 + varintLen(msgLen) + msgLen
+	if fieldsLen > 0 {
+		n += varintLen(fieldsLen) + fieldsLen
+	}
+	return n
+}
+
+// runRecsize: three events to a source of a pipe, the middle one with a record of c.SrcSize bytes (accepted by the ingestor
+// iff it fits MaxRecordSize). The source must read back whatever was acknowledged; the pipe partition must stay readable and
+// hold the copies of everything acknowledged.
+func runRecsize(c recsizeCase, sec *vh.Section) {
+	dir := lrsrv.NewDir()
+	defer os.RemoveAll(dir)
+	srv, err := lrsrv.Start(dir, lrsrv.Opts{MaxRecordSize: c.Max, WriteFlushMs: 40})
+	if err != nil {
+		res.Note("recsize: %v", err)
+		return
+	}
+	defer srv.Stop()
+	name, tl := "pz", "app=a1,grp=g1"
+	if _, err := srv.Exec("create pipe " + name + " from grp=g1"); err != nil {
+		res.Note("recsize: %v", err)
+		return
+	}
+	d, _ := srv.Pipes.GetPipe(name)
+	destTags := d.DestTags.Line().String()
+	ownFields := fieldParse(c.Fields)
+	prov := fieldParse(tl)
+	// message length for the wanted record size
+	msgLen := -1
+	for l := 0; l <= c.SrcSize; l++ {
+		if recordSize(l, len(ownFields)) == c.SrcSize {
+			msgLen = l
+		}
+	}
+	if msgLen < 0 {
+		res.Note("recsize: no message length gives a record of %d bytes", c.SrcSize)
+		return
+	}
+	big := "big " + strings.Repeat("x", msgLen-4)
+	le := model.LogEvent{Msg: []byte(big), Fields: ownFields}
+	if le.WritableSize() != c.SrcSize {
+		res.Mismatch(vh.Mismatch{Section: "recsize", Function: "model.LogEvent.WritableSize vs the reference arithmetic", Input: c, Impl: fmt.Sprint(le.WritableSize()), Model: fmt.Sprint(c.SrcSize)})
+		return
+	}
+	dstSize := recordSize(msgLen, len(ownFields)+len(prov))
+	var wr api.WriteResult
+	evs := []*api.LogEvent{{Timestamp: 1, Message: "first"}, {Timestamp: 2, Message: big}, {Timestamp: 3, Message: "third"}}
+	werr := srv.Client.Write(context.Background(), tl, c.Fields, evs, &wr)
+	if werr == nil {
+		werr = wr.Err
+	}
+	res.Eval(sec, fmt.Sprint(c))
+	fits, copyFits := c.SrcSize <= c.Max, dstSize <= c.Max
+	res.Dist(sec, fmt.Sprintf("source fits=%v copy fits=%v", fits, copyFits))
+	// MODEL (Props.C10: stored size of the copy = source size + provenance, nothing checks it)
+	ans, derr := vh.Batch(args.Driver, []string{fmt.Sprintf("recsize %d %d %d", msgLen, len(ownFields), len(prov))})
+	if derr != nil {
+		res.Fatal(args.Out, "driver: %v", derr)
+	}
+	if ans[0] != fmt.Sprintf("%d %d", c.SrcSize, dstSize) {
+		res.Mismatch(vh.Mismatch{Section: "recsize", Function: "record size of a source event and of its copy", Input: c, Impl: fmt.Sprintf("%d %d", c.SrcSize, dstSize), Model: ans[0]})
+	}
+	if (werr == nil) != fits {
+		res.SpecFail(vh.SpecFailure{Section: "recsize", Kind: "oversize-acceptance", Input: c, Impl: fmt.Sprintf("write error: %v", werr), Spec: fmt.Sprintf("accepted iff the record fits (%v)", fits),
+			What: "the ingestor must accept a packet iff every record can be read back (C01)"})
+		return
+	}
+	if werr != nil {
+		return // rejected as a whole: nothing to copy
+	}
+	waitDest(srv, destTags, 3, 8*time.Second)
+	settle(srv, name, tl, destTags)
+	src, serr := readAll(srv, "select from {"+tl+"}")
+	dest, derr2 := readAll(srv, "select from "+destTags)
+	if serr != nil || len(src) != 3 {
+		res.SpecFail(vh.SpecFailure{Section: "recsize", Kind: "source-unreadable", Input: c, Impl: fmt.Sprintf("%d events, err=%v", len(src), serr), Spec: "3 events", What: "the acknowledged events do not read back from the source (C01)"})
+		return
+	}
+	ok := derr2 == nil && len(dest) == 3 && dest[0].Message == "first" && dest[1].Message == big && dest[2].Message == "third"
+	if !ok {
+		finding := ""
+		// class of F52: the source record fits, its copy with the provenance fields does not; the model stores it all the same
+		if fits && !copyFits {
+			finding = "F52"
+		}
+		res.SpecFail(vh.SpecFailure{Section: "recsize", Kind: "pipe-partition-unreadable", Input: c,
+			Impl:  fmt.Sprintf("reading the pipe partition: %d events, err=%v (source record %d bytes, its copy %d bytes, MaxRecordSize %d)", len(dest), derr2, c.SrcSize, dstSize, c.Max),
+			Spec:  "the three copies, readable",
+			Model: ans[0], ImplEqModel: true, Finding: finding,
+			What: "a source record that fits MaxRecordSize but whose copy with the provenance fields does not: the pipe stores it unchecked and every read of the pipe's partition fails from then on"})
+	}
+}
+
+func sectionRecsize(corpus []recsizeCase) {
+	sec := res.Section("recsize", "spec-search",
+		"a pipe over a source on a server with a small MaxRecordSize (300): three events, the middle one with a record of every size around the limit (the copy grows by the encoded provenance fields and, for an event without own fields, by the length prefix of the field list), with and without own fields; the ingestor accepts iff the source record fits; the source reads back; the pipe partition must stay readable with the three copies; record sizes vs the reference arithmetic, model.LogEvent.WritableSize and the Lean model; non-trivial = every case")
+	cs := append([]recsizeCase{}, corpus...)
+	for _, sz := range []int{270, 284, 285, 286, 297, 299, 300, 301} {
+		cs = append(cs, recsizeCase{Max: 300, SrcSize: sz})
+	}
+	for _, sz := range []int{280, 286, 287, 300} {
+		cs = append(cs, recsizeCase{Max: 300, SrcSize: sz, Fields: "f=1"})
+	}
+	var wg sync.WaitGroup
+	for _, c := range cs {
+		wg.Add(1)
+		go func(c recsizeCase) { defer wg.Done(); runRecsize(c, sec) }(c)
+	}
+	wg.Wait()
+	res.Done(sec)
+}
+
+// ---------------------------------------------------------------------------------------------
 // a deleted pipe must leave no running machinery behind
 
 type respawnCase struct {
@@ -2142,6 +2284,7 @@ type corpusDoc struct {
 }
 
 var corpusRespawn []respawnCase
+var corpusRecsize []recsizeCase
 
 func sectionCorpus() (parked []parkedCase) {
 	sec := res.Section("corpus", "corpus", "witnesses of the open findings and minimised past failures (corpus/C10/*.json), replayed first: histories through the same runner as section history, parked cases in section parked")
@@ -2168,6 +2311,11 @@ func sectionCorpus() (parked []parkedCase) {
 			if json.Unmarshal(d.Input, &c) == nil {
 				corpusRespawn = append(corpusRespawn, c)
 			}
+		case "recsize":
+			var c recsizeCase
+			if json.Unmarshal(d.Input, &c) == nil {
+				corpusRecsize = append(corpusRecsize, c)
+			}
 		}
 	}
 	runPar(hs, 12, func(h *history) { runHistory(h, sec, "corpus") })
@@ -2186,6 +2334,11 @@ func replay(path string) {
 		json.Unmarshal(d.Input, &h)
 		sec := res.Section("history", "replay", "replay of one recorded history")
 		runHistory(&h, sec, "history")
+	case "recsize":
+		var c recsizeCase
+		json.Unmarshal(d.Input, &c)
+		sec := res.Section("recsize", "replay", "replay of one record size")
+		runRecsize(c, sec)
 	case "respawn":
 		var c respawnCase
 		json.Unmarshal(d.Input, &c)
@@ -2243,6 +2396,9 @@ func main() {
 	}
 	if want("parked") {
 		sectionParked(rng.Fork("parked"), parked)
+	}
+	if want("recsize") {
+		sectionRecsize(corpusRecsize)
 	}
 	if want("respawn") {
 		sectionRespawn(corpusRespawn)
